@@ -5,7 +5,68 @@ package torrent
 import (
 	"io"
 	"io/fs"
+
+	"github.com/cenkalti/rain/v2/internal/resumer/boltdbresumer"
+	"github.com/zeebo/bencode"
+	"go.etcd.io/bbolt"
 )
 
 // ReadDataForVerif exposes readData (tar extraction of a moved torrent).
 func ReadDataForVerif(r io.Reader, dir string, perm fs.FileMode) error { return readData(r, dir, perm) }
+
+// ---- C14: registry / resume database observers ----
+
+// ResumeSpecForVerif reads the resume record of a torrent.
+func (s *Session) ResumeSpecForVerif(id string) *boltdbresumer.Spec {
+	spec, err := s.resumer.Read(id)
+	if err != nil {
+		return nil
+	}
+	return spec
+}
+
+// ResumeIDsForVerif lists the torrent ids recorded in the resume database.
+func (s *Session) ResumeIDsForVerif() []string {
+	var ids []string
+	_ = s.db.View(func(tx *bbolt.Tx) error {
+		b := tx.Bucket(torrentsBucket)
+		if b == nil {
+			return nil
+		}
+		return b.ForEach(func(k, _ []byte) error {
+			ids = append(ids, string(k))
+			return nil
+		})
+	})
+	return ids
+}
+
+// FreePortsForVerif returns the ports of the configured range that no torrent owns.
+func (s *Session) FreePortsForVerif() []int {
+	s.mPorts.Lock()
+	defer s.mPorts.Unlock()
+	var ps []int
+	for p := range s.availablePorts {
+		ps = append(ps, p)
+	}
+	return ps
+}
+
+// HasInfoForVerif tells whether the torrent has its metadata.
+func (t *Torrent) HasInfoForVerif() bool { return t.torrent.info != nil }
+
+// BuildTorrentFileWithTrackers creates a metainfo file with an announce-list.
+func BuildTorrentFileWithTrackers(info []byte, urlList []string, tiers [][]string) []byte {
+	d := map[string]any{"info": bencode.RawMessage(info)}
+	if len(urlList) > 0 {
+		d["url-list"] = urlList
+	}
+	if len(tiers) > 0 {
+		d["announce-list"] = tiers
+	}
+	b, err := bencode.EncodeBytes(d)
+	if err != nil {
+		panic(err)
+	}
+	return b
+}
